@@ -8,6 +8,7 @@ import (
 	"golang.org/x/crypto/curve25519"
 
 	"github.com/cbeuw/Cloak/internal/common"
+	"github.com/cbeuw/Cloak/internal/zzverif/ref"
 	"github.com/cbeuw/Cloak/internal/zzverif/vapi"
 )
 
@@ -65,23 +66,9 @@ func vNewClient(serverPub [32]byte, plaintext []byte) *vClient {
 	return c
 }
 
-// vPlaintext composes the 48-byte authentication plaintext.
+// vPlaintext composes the 48-byte authentication plaintext (shared reference, see zzverif/ref).
 func vPlaintext(uid []byte, method []byte, enc byte, ts int64, sid uint32, unordered bool) []byte {
-	p := make([]byte, 48)
-	copy(p, uid)
-	copy(p[16:28], method)
-	p[28] = enc
-	for i := 0; i < 8; i++ {
-		p[29+i] = byte(uint64(ts) >> uint(56-8*i))
-	}
-	p[37] = byte(sid >> 24)
-	p[38] = byte(sid >> 16)
-	p[39] = byte(sid >> 8)
-	p[40] = byte(sid)
-	if unordered {
-		p[41] = 1
-	}
-	return p
+	return ref.Plaintext(uid, method, enc, ts, sid, unordered)
 }
 
 // vHello builds a structurally valid TLS 1.3-style ClientHello record carrying random / session id / x25519 share.
